@@ -1263,6 +1263,9 @@ def _check_builders(case):
     except Exception as e:
         out.append((fid, C_EXH, f'{where}: raised {_exc(e)}'))
 
+    if case.get('skip_stepwise'):
+        return out  # large space: the number of stepwise paths is out of reach
+
     # exhaustive_stepwise
     fid = MS_ALG + 'exhaustive_stepwise'
     try:
@@ -1538,8 +1541,11 @@ def _enum_check(case):
 def _case_size(case):
     import json
 
-    return (len(case.get('keys') or case.get('previous') or case.get('elements')
-                or case.get('structure') or []), len(json.dumps(case)))
+    if case['kind'] in ('builders', 'allowed'):
+        n = len(_sub_dict(case)) + len(case.get('previous', []))
+    else:
+        n = len(case.get('elements') or case.get('structure') or [])
+    return (n, len(json.dumps(case)))
 
 
 def _enum_worker(items):
@@ -1588,6 +1594,708 @@ def bounded_enumeration_replay(rp):
     case = rp['case']
     _mfl()
     for fid, clause, detail in _enum_check(case):
+        if fid == case['fid'] and clause == case['clause']:
+            return (False, detail)
+    return (True, 'ok')
+
+
+# ======================================================================================
+# (3) Workflows: composition and execution against a reference topological evaluation
+# ======================================================================================
+
+WF = 'src/pharmpy/workflows/workflow.py:'
+WF_EXEC = 'src/pharmpy/workflows/execute.py:execute_workflow'
+WF_RUN = 'src/pharmpy/workflows/dispatchers/local_dask/run.py:run'
+
+CTX = 'CTX'
+_CALLS = []
+
+
+def _plain(label):
+    def task_fn(uid, *args):
+        _CALLS.append(uid)
+        return (label, None, (uid,) + args)
+    return task_fn
+
+
+def _shared_fn(uid, *args):
+    _CALLS.append(uid)
+    return ('S', None, (uid,) + args)
+
+
+def _ctx_plain(label):
+    def task_fn(context, uid, *args):
+        _CALLS.append(uid)
+        return (label, context, (uid,) + args)
+    return task_fn
+
+
+def _ctx_lambda(label):
+    return lambda context, uid, *args: (_CALLS.append(uid), (label, context, (uid,) + args))[1]
+
+
+def _noctx_lambda(label):
+    return lambda uid, *args: (_CALLS.append(uid), (label, None, (uid,) + args))[1]
+
+
+def _ctx_partial(label):
+    import functools
+
+    def inner(tag, context, uid, *args):
+        _CALLS.append(uid)
+        return (tag, context, (uid,) + args)
+    return functools.partial(inner, label)
+
+
+def _noctx_partial(label):
+    import functools
+
+    def inner(tag, uid, *args):
+        _CALLS.append(uid)
+        return (tag, None, (uid,) + args)
+    return functools.partial(inner, label)
+
+
+class _Holder:
+    def __init__(self, label):
+        self.label = label
+
+    def method(self, context, uid, *args):
+        _CALLS.append(uid)
+        return (self.label, context, (uid,) + args)
+
+    def plain_method(self, uid, *args):
+        _CALLS.append(uid)
+        return (self.label, None, (uid,) + args)
+
+
+class _CallableCtx:
+    def __init__(self, label):
+        self.label = label
+
+    def __call__(self, context, uid, *args):
+        _CALLS.append(uid)
+        return (self.label, context, (uid,) + args)
+
+
+def _ctx_wrapped(label):
+    import functools
+
+    inner = _ctx_plain(label)
+
+    @functools.wraps(inner)
+    def wrapper(*args, **kwargs):
+        return inner(*args, **kwargs)
+    return wrapper
+
+
+def _second_param(label):
+    def task_fn(uid, context, *args):  # `context` is not the first parameter
+        _CALLS.append(uid)
+        return (label, None, (uid, context) + args)
+    return task_fn
+
+
+def _other_name(label):
+    def task_fn(ctx, *args):  # first parameter is not called `context`
+        _CALLS.append(ctx)
+        return (label, None, (ctx,) + args)
+    return task_fn
+
+
+# kind -> (factory, takes the context as first argument)
+FN_KINDS = {
+    'plain': (_plain, False),
+    'ctx_plain': (_ctx_plain, True),
+    'ctx_lambda': (_ctx_lambda, True),
+    'lambda': (_noctx_lambda, False),
+    'ctx_partial': (_ctx_partial, True),
+    'partial': (_noctx_partial, False),
+    'ctx_method': (lambda label: _Holder(label).method, True),
+    'method': (lambda label: _Holder(label).plain_method, False),
+    'ctx_callable': (_CallableCtx, True),
+    'ctx_wrapped': (_ctx_wrapped, True),
+    'second_param': (_second_param, False),
+    'other_name': (_other_name, False),
+}
+
+
+class _RefWF:
+    """the declared workflow: tasks in the order they entered, and edges"""
+
+    def __init__(self, order=(), edges=()):
+        self.order = list(order)
+        self.edges = set(edges)
+
+    def copy(self):
+        return _RefWF(self.order, self.edges)
+
+    def add(self, t, preds=()):
+        if t not in self.order:
+            self.order.append(t)
+        for p in preds:
+            self.edges.add((p, t))
+
+    def inputs(self):
+        return [t for t in self.order if not any(e[1] == t for e in self.edges)]
+
+    def outputs(self):
+        return [t for t in self.order if not any(e[0] == t for e in self.edges)]
+
+    def preds(self, t):
+        return [p for p in self.order if (p, t) in self.edges]
+
+    def insert(self, other, preds=None):
+        """None when the connection is N:M (documented ValueError)"""
+        outs = self.outputs() if preds is None else list(preds)
+        ins = other.inputs()
+        new = self.copy()
+        for t in other.order:
+            new.add(t)
+        new.edges |= other.edges
+        if len(ins) == len(outs):
+            for i, o in zip(ins, outs):
+                new.edges.add((o, i))
+        elif len(ins) == 1:
+            for o in outs:
+                new.edges.add((o, ins[0]))
+        elif len(outs) == 1:
+            for i in ins:
+                new.edges.add((outs[0], i))
+        else:
+            return None
+        return new
+
+    def replace(self, t, new):
+        """the new task enters the workflow now (last), with the edges of the replaced one"""
+        r = _RefWF([x for x in self.order if x != t] + [new],
+                   {(new if a == t else a, new if b == t else b) for a, b in self.edges})
+        return r
+
+    def plus(self, other):
+        new = self.copy()
+        for t in other.order:
+            new.add(t)
+        new.edges |= other.edges
+        return new
+
+
+class _Spec:
+    """what a test task is: label, static inputs, whether it takes the context"""
+
+    def __init__(self, task, label, static, ctx=False):
+        self.task = task
+        self.label = label
+        self.static = tuple(static)
+        self.ctx = ctx
+
+
+def _ref_eval(ref, specs, context=None):
+    """sequential evaluation in topological order; value of every task and the number of sinks"""
+    val = {}
+    remaining = list(ref.order)
+    while remaining:
+        progressed = False
+        for t in list(remaining):
+            ps = ref.preds(t)
+            if all(p in val for p in ps):
+                s = specs[t]
+                args = s.static + tuple(val[p] for p in ps)
+                val[t] = (s.label, context if s.ctx else None, args)
+                remaining.remove(t)
+                progressed = True
+        if not progressed:
+            raise RuntimeError('cycle')
+    return val
+
+
+C_WF_KEEP = 'composition keeps exactly the declared tasks and edges (tasks, input and output tasks in entry order, predecessors and successors)'
+C_WF_NM = 'insert_workflow raises the documented ValueError exactly for N:M connections'
+C_WF_DICT = 'as_dask_dict has one unique key per task, the sink is called results, every value is (function, *static inputs, *keys of the predecessors in entry order)'
+C_WF_ONESINK = 'as_dask_dict raises the documented ValueError exactly when the workflow does not have one output task'
+C_WF_GET = 'threaded execution of as_dask_dict equals the sequential reference evaluation, whatever the number of scheduler threads'
+C_WF_ONCE = 'every task is called exactly once'
+C_WF_RUN = 'the local_dask dispatcher (threaded) returns the reference value of the single output task'
+C_WF_EXEC = 'execute_workflow returns the reference value of the workflow it was given: static inputs, context first where the function takes it, then predecessor results in the entry order of the given workflow'
+C_WF_CTX = 'insert_context prepends the context to exactly the tasks whose function takes a context first and keeps every other task, all edges and the task count'
+C_WF_PURE = 'a Workflow built from a builder is not changed by later builder operations'
+
+
+def _graph_view(wf):
+    tasks = wf.tasks
+    ids = {id(t): i for i, t in enumerate(tasks)}
+    return tasks, ids
+
+
+def _check_structure(wf, ref, where):
+    """C_WF_KEEP for a Workflow / WorkflowBuilder against the reference"""
+    tasks = wf.tasks
+    bad = None
+    if [id(t) for t in tasks] != [id(t) for t in ref.order]:
+        if sorted(map(id, tasks)) != sorted(map(id, ref.order)):
+            bad = f'tasks {[t.name for t in tasks]} declared {[t.name for t in ref.order]}'
+        else:
+            bad = f'task order {[t.name for t in tasks]} declared entry order {[t.name for t in ref.order]}'
+    elif len(wf) != len(ref.order):
+        bad = f'len {len(wf)}'
+    else:
+        for t in ref.order:
+            got = [id(p) for p in wf.get_predecessors(t)]
+            want = [id(p) for p in ref.preds(t)]
+            if sorted(got) != sorted(want):
+                bad = (f'predecessors of {t.name}: {[p.name for p in wf.get_predecessors(t)]} declared '
+                       f'{[p.name for p in ref.preds(t)]}')
+                break
+            gots = sorted(id(s) for s in wf.get_successors(t))
+            wants = sorted(id(b) for a, b in ref.edges if a is t)
+            if gots != wants:
+                bad = f'successors of {t.name} differ'
+                break
+        if bad is None and [id(t) for t in wf.input_tasks] != [id(t) for t in ref.inputs()]:
+            bad = f'input_tasks {[t.name for t in wf.input_tasks]} declared {[t.name for t in ref.inputs()]}'
+        if bad is None and [id(t) for t in wf.output_tasks] != [id(t) for t in ref.outputs()]:
+            bad = f'output_tasks {[t.name for t in wf.output_tasks]} declared {[t.name for t in ref.outputs()]}'
+    return [(WF + 'WorkflowBuilder', C_WF_KEEP, f'{where}: {bad}')] if bad else []
+
+
+def _check_dask_and_run(wf, ref, specs, where, real_run=False):
+    """C_WF_DICT / C_WF_ONESINK / C_WF_GET / C_WF_ONCE (/ C_WF_RUN) for a Workflow"""
+    from dask.threaded import get
+
+    out = []
+    fid = WF + 'Workflow.as_dask_dict'
+    sinks = ref.outputs()
+    try:
+        dsk = wf.as_dask_dict()
+    except ValueError as e:
+        if len(sinks) == 1:
+            out.append((fid, C_WF_ONESINK, f'{where}: one output task but raised {_exc(e)}'))
+        return out
+    except Exception as e:
+        out.append((fid, C_WF_DICT, f'{where}: raised {_exc(e)}'))
+        return out
+    if len(sinks) != 1:
+        out.append((fid, C_WF_ONESINK, f'{where}: {len(sinks)} output tasks but no ValueError'))
+        return out
+    sink = sinks[0]
+    by_uid = {specs[t].static[0]: t for t in ref.order}
+    key_of = {}
+    bad = None
+    if len(dsk) != len(ref.order):
+        bad = f'{len(dsk)} keys for {len(ref.order)} tasks'
+    else:
+        for key, value in dsk.items():
+            nstat = None
+            for t in ref.order:
+                s = specs[t]
+                if value[0] is t.function and tuple(value[1:1 + len(s.static)]) == s.static \
+                        and by_uid.get(value[1]) is t:
+                    nstat = len(s.static)
+                    key_of[id(t)] = key
+                    break
+            if nstat is None:
+                bad = f'value of {key!r} is not (function, *static inputs, ...) of a task'
+                break
+        if bad is None and len(key_of) != len(ref.order):
+            bad = 'two keys describe the same task'
+        if bad is None and key_of[id(sink)] != 'results':
+            bad = f'the sink has key {key_of[id(sink)]!r}'
+        if bad is None:
+            for t in ref.order:
+                key = key_of[id(t)]
+                if t is not sink and not key.startswith(t.name + '-'):
+                    bad = f'key {key!r} of task {t.name}'
+                    break
+                got = list(dsk[key][1 + len(specs[t].static):])
+                want = [key_of[id(p)] for p in ref.preds(t)]
+                if got != want:
+                    names = {v: k for k, v in key_of.items()}
+                    bad = (f'{t.name} receives its predecessors in the order '
+                           f'{[by_name(ref, names.get(k)) for k in got]}, entry order is '
+                           f'{[p.name for p in ref.preds(t)]}')
+                    break
+    if bad:
+        out.append((fid, C_WF_DICT, f'{where}: {bad}'))
+    want = _ref_eval(ref, specs)[sink]
+    for workers in (4, 1):
+        del _CALLS[:]
+        try:
+            got = get(dsk, 'results', num_workers=workers)
+        except Exception as e:
+            out.append((fid, C_WF_GET, f'{where}: {workers} threads: raised {_exc(e)}'))
+            break
+        if got != want:
+            out.append((fid, C_WF_GET, f'{where}: {workers} threads: result {got!r} reference {want!r}'))
+            break
+        calls = sorted(_CALLS, key=repr)
+        if calls != sorted((specs[t].static[0] for t in ref.order), key=repr):
+            out.append((fid, C_WF_ONCE, f'{where}: {workers} threads: calls {calls}'))
+            break
+    if real_run:
+        import pharmpy.workflows.dispatchers as D
+        from pharmpy.workflows.dispatchers.local_dask import run
+
+        old = D.conf.dask_dispatcher
+        D.conf.dask_dispatcher = 'threaded'
+        try:
+            del _CALLS[:]
+            got = run(wf, None)
+            if got != want:
+                out.append((WF_RUN, C_WF_RUN, f'{where}: result {got!r} reference {want!r}'))
+            elif sorted(_CALLS, key=repr) != sorted((specs[t].static[0] for t in ref.order), key=repr):
+                out.append((WF_RUN, C_WF_ONCE, f'{where}: calls {sorted(_CALLS, key=repr)}'))
+        except Exception as e:
+            out.append((WF_RUN, C_WF_RUN, f'{where}: raised {_exc(e)}'))
+        finally:
+            D.conf.dask_dispatcher = old
+    return out
+
+
+def by_name(ref, task_id):
+    for t in ref.order:
+        if id(t) == task_id:
+            return t.name
+    return '?'
+
+
+def _new_tasks(n, names='distinct', prefix='t', start=0):
+    """n test tasks with specs; uid (first static input) identifies the task in calls and dicts"""
+    from pharmpy.workflows import Task
+
+    tasks, specs = [], {}
+    for i in range(start, start + n):
+        uid = f'{prefix}{i}'
+        if names == 'same':
+            t = Task('task', _shared_fn, uid, i * 10)
+            specs[t] = _Spec(t, 'S', (uid, i * 10))
+        else:
+            label = f'L{prefix}{i}'
+            t = Task(uid, _plain(label), uid, i * 10)
+            specs[t] = _Spec(t, label, (uid, i * 10))
+        tasks.append(t)
+    return tasks, specs
+
+
+def _build_dag(tasks, edges, perm, pred_order='asc', variant='late_edges'):
+    """(builder, reference) of the DAG over tasks[i] with edges [i, j], i<j"""
+    from pharmpy.workflows import WorkflowBuilder
+
+    wb = WorkflowBuilder(name='w')
+    ref = _RefWF()
+    n = len(tasks)
+    preds = {j: [i for i, jj in edges if jj == j] for j in range(n)}
+    if variant == 'topo':
+        for j in range(n):
+            ps = preds[j] if pred_order == 'asc' else preds[j][::-1]
+            if not ps:
+                wb.add_task(tasks[j])
+            elif len(ps) == 1 and pred_order == 'asc':
+                wb.add_task(tasks[j], predecessors=tasks[ps[0]])
+            else:
+                wb.add_task(tasks[j], predecessors=[tasks[p] for p in ps])
+            ref.add(tasks[j], [tasks[p] for p in ps])
+    elif variant == 'init':
+        wb = WorkflowBuilder(tasks=[tasks[i] for i in perm], name='w')
+        for i in perm:
+            ref.add(tasks[i])
+        for j in range(n):
+            if preds[j]:
+                wb.add_task(tasks[j], predecessors=[tasks[p] for p in preds[j]])
+                ref.add(tasks[j], [tasks[p] for p in preds[j]])
+    else:
+        for i in perm:
+            wb.add_task(tasks[i])
+            ref.add(tasks[i])
+        for j in range(n):
+            ps = preds[j] if pred_order == 'asc' else preds[j][::-1]
+            if ps:
+                wb.add_task(tasks[j], predecessors=[tasks[p] for p in ps])
+                ref.add(tasks[j], [tasks[p] for p in ps])
+    return wb, ref
+
+
+def _check_wf_case(case):
+    from pharmpy.workflows import Task, Workflow, WorkflowBuilder
+
+    kind = case['kind']
+    out = []
+    where = ', '.join(f'{k}={v}' for k, v in case.items() if k not in ('fid', 'clause'))
+    if kind == 'dag':
+        tasks, specs = _new_tasks(case['n'], case['names'])
+        wb, ref = _build_dag(tasks, case['edges'], case['perm'], case['pred_order'], case['variant'])
+        out += _check_structure(wb, ref, where)
+        wf = Workflow(wb)
+        out += _check_structure(wf, ref, where)
+        out += _check_dask_and_run(wf, ref, specs, where, real_run=case.get('real_run', False))
+        # later builder operations do not reach the Workflow
+        extra = Task('late', _plain('late'), 'late')
+        wb.add_task(extra, predecessors=tasks[-1])
+        if len(wf) != case['n'] or any(t is extra for t in wf.tasks):
+            out.append((WF + 'Workflow', C_WF_PURE, f'{where}: the workflow gained a task'))
+        # a builder made from the workflow is an independent copy with the same tasks and edges
+        wb2 = WorkflowBuilder(wf)
+        out += _check_structure(wb2, ref, where + ' (WorkflowBuilder(workflow))')
+    elif kind == 'insert':
+        ta, sa = _new_tasks(case['a'], 'distinct', 'a')
+        tb, sb = _new_tasks(case['b'], case.get('names', 'distinct'), 'b')
+        specs = dict(sa)
+        specs.update(sb)
+        wba, refa = _build_dag(ta, case['ea'], list(range(case['a'])))
+        wbb, refb = _build_dag(tb, case['eb'], case['permb'])
+        other = Workflow(wbb)
+        p = case['preds']
+        if p is None:
+            arg, plist = None, None
+        elif 'single' in p:
+            arg, plist = ta[p['single']], [ta[p['single']]]
+        else:
+            arg = [ta[i] for i in p['list']]
+            plist = arg
+        ref = refa.insert(refb, plist)
+        fid = WF + 'WorkflowBuilder.insert_workflow'
+        try:
+            if arg is None:
+                wba.insert_workflow(other)
+            else:
+                wba.insert_workflow(other, predecessors=arg)
+        except ValueError as e:
+            if ref is not None:
+                out.append((fid, C_WF_NM, f'{where}: raised {_exc(e)}'))
+            return out
+        except Exception as e:
+            out.append((fid, C_WF_NM, f'{where}: raised {_exc(e)}'))
+            return out
+        if ref is None:
+            out.append((fid, C_WF_NM, f'{where}: N:M connection accepted'))
+            return out
+        out += [(fid, c, d) for _, c, d in _check_structure(wba, ref, where)]
+        if len(other) != case['b'] or _check_structure(other, refb, where):
+            out.append((fid, C_WF_PURE, f'{where}: the inserted workflow changed'))
+        wf = Workflow(wba)
+        out += _check_dask_and_run(wf, ref, specs, where)
+    elif kind == 'replace':
+        tasks, specs = _new_tasks(case['n'], 'distinct')
+        wb, ref = _build_dag(tasks, case['edges'], list(range(case['n'])))
+        old = tasks[case['k']]
+        if case['same_name']:
+            new = old.replace(task_input=('new', 77))
+            specs[new] = _Spec(new, specs[old].label, ('new', 77))
+        else:
+            new = Task('new', _plain('Lnew'), 'new', 77)
+            specs[new] = _Spec(new, 'Lnew', ('new', 77))
+        ref = ref.replace(old, new)
+        fid = WF + 'WorkflowBuilder.replace_task'
+        try:
+            wb.replace_task(old, new)
+        except Exception as e:
+            return [(fid, C_WF_KEEP, f'{where}: raised {_exc(e)}')]
+        out += [(fid, c, d) for _, c, d in _check_structure(wb, ref, where)]
+        out += _check_dask_and_run(Workflow(wb), ref, specs, where)
+    elif kind == 'plus':
+        n, k = case['n'], case['k']
+        tasks, specs = _new_tasks(n, 'distinct')
+        s1 = list(range(0, k + 1))
+        s2 = list(range(k, n))
+        e1 = [e for e in case['edges'] if e[0] in s1 and e[1] in s1]
+        e2 = [e for e in case['edges'] if e[0] in s2 and e[1] in s2]
+        wb1, ref1 = _build_dag([tasks[i] for i in s1], e1, list(range(len(s1))))
+        wb2, ref2 = _build_dag([tasks[i] for i in s2], [[a - k, b - k] for a, b in e2],
+                               list(range(len(s2)))[::-1] if case.get('rev') else list(range(len(s2))))
+        ref = ref1.plus(ref2)
+        fid = WF + ('WorkflowBuilder.__add__' if case['builder'] else 'Workflow.__add__')
+        try:
+            if case['builder']:
+                res = wb1 + Workflow(wb2)
+                assert isinstance(res, WorkflowBuilder)
+            else:
+                res = Workflow(wb1) + Workflow(wb2)
+                assert isinstance(res, Workflow)
+        except Exception as e:
+            return [(fid, C_WF_KEEP, f'{where}: raised {_exc(e)}')]
+        out += [(fid, c, d) for _, c, d in _check_structure(res, ref, where)]
+        if _check_structure(wb1, ref1, where) or _check_structure(wb2, ref2, where):
+            out.append((fid, C_WF_PURE, f'{where}: an operand changed'))
+        out += _check_dask_and_run(res if not case['builder'] else Workflow(res), ref, specs, where)
+    elif kind == 'context':
+        from pharmpy.workflows import execute_workflow, local_dask
+        from pharmpy.workflows.workflow import insert_context
+        import pharmpy.workflows.dispatchers as D
+
+        n = case['n']
+        tasks, specs = [], {}
+        for i, kd in enumerate(case['kinds']):
+            factory, takes = FN_KINDS[kd]
+            label = f'L{i}{kd}'
+            t = Task(f't{i}', factory(label), f't{i}', i * 10)
+            tasks.append(t)
+            specs[t] = _Spec(t, label, (f't{i}', i * 10), ctx=takes)
+        wb, ref = _build_dag(tasks, case['edges'], list(range(n)))
+        wf = Workflow(wb)
+        # insert_context on a builder
+        wbc = WorkflowBuilder(wf)
+        fid = WF + 'insert_context'
+        try:
+            insert_context(wbc, CTX)
+            got = wbc.tasks
+            bad = None
+            if len(got) != n:
+                bad = f'{len(got)} tasks'
+            new_of = {}
+            for t in tasks:
+                want_input = ((CTX,) if specs[t].ctx else ()) + t.task_input
+                match = [g for g in got if g.name == t.name and g.function is t.function]
+                if len(match) != 1:
+                    bad = bad or f'task {t.name} occurs {len(match)} times'
+                elif match[0].task_input != want_input:
+                    bad = bad or (f'task {t.name} ({case["kinds"][tasks.index(t)]}) has input '
+                                  f'{match[0].task_input}, expected {want_input}')
+                elif not specs[t].ctx and match[0] is not t:
+                    bad = bad or f'task {t.name} was replaced although it takes no context'
+                else:
+                    new_of[t] = match[0]
+            if bad is None:
+                edges = {(id(p), id(g)) for g in got for p in wbc.get_predecessors(g)}
+                if edges != {(id(new_of[a]), id(new_of[b])) for a, b in ref.edges}:
+                    bad = 'edges changed'
+            if bad:
+                out.append((fid, C_WF_CTX, f'{where}: {bad}'))
+        except Exception as e:
+            out.append((fid, C_WF_CTX, f'{where}: raised {_exc(e)}'))
+        # execute_workflow end to end (threaded local_dask dispatcher, the given context)
+        want = _ref_eval(ref, specs, context=CTX)[ref.outputs()[0]]
+        old = D.conf.dask_dispatcher
+        D.conf.dask_dispatcher = 'threaded'
+        try:
+            del _CALLS[:]
+            got = execute_workflow(wf, dispatcher=local_dask, context=CTX)
+            if got != want:
+                out.append((WF_EXEC, C_WF_EXEC, f'{where}: result {got!r} reference {want!r}'))
+            elif sorted(_CALLS) != sorted(specs[t].static[0] for t in tasks):
+                out.append((WF_EXEC, C_WF_ONCE, f'{where}: calls {sorted(_CALLS)}'))
+        except Exception as e:
+            out.append((WF_EXEC, C_WF_EXEC, f'{where}: raised {_exc(e)}'))
+        finally:
+            D.conf.dask_dispatcher = old
+        if len(wf) != n or [id(t) for t in wf.tasks] != [id(t) for t in tasks]:
+            out.append((WF_EXEC, C_WF_PURE, f'{where}: the executed workflow changed'))
+    else:
+        raise ValueError(kind)
+    return out
+
+
+def _all_dags(n, one_sink):
+    """edge lists over nodes 0..n-1 with i<j (every DAG shape), optionally with exactly one sink"""
+    pairs = [(i, j) for i in range(n) for j in range(i + 1, n)]
+    for mask in range(1 << len(pairs)):
+        edges = [list(p) for b, p in enumerate(pairs) if mask >> b & 1]
+        if one_sink and any(not any(e[0] == i for e in edges) for i in range(n - 1)):
+            continue
+        yield edges
+
+
+def _wf_cases(tier):
+    quick = tier == 'quick'
+    N = 4 if quick else 5
+    for n in range(1, N + 1):
+        for edges in _all_dags(n, True):
+            perms = list(itertools.permutations(range(n)))
+            if n == 5:
+                # every rotation and the reversal of the entry order
+                perms = [tuple((i + r) % n for i in range(n)) for r in range(n)] + [tuple(range(n))[::-1]]
+            for perm in perms:
+                ident = list(perm) == list(range(n))
+                for names in ('distinct', 'same'):
+                    for po in ('asc', 'desc'):
+                        yield {'kind': 'dag', 'n': n, 'edges': edges, 'perm': list(perm), 'names': names,
+                               'pred_order': po, 'variant': 'late_edges', 'real_run': ident and po == 'asc'}
+                    yield {'kind': 'dag', 'n': n, 'edges': edges, 'perm': list(perm), 'names': names,
+                           'pred_order': 'asc', 'variant': 'init'}
+            for names in ('distinct', 'same'):
+                for po in ('asc', 'desc'):
+                    yield {'kind': 'dag', 'n': n, 'edges': edges, 'perm': list(range(n)), 'names': names,
+                           'pred_order': po, 'variant': 'topo'}
+            for k in range(n):
+                for same in (False, True):
+                    yield {'kind': 'replace', 'n': n, 'edges': edges, 'k': k, 'same_name': same}
+            for k in range(0, n):
+                for builder in (False, True):
+                    yield {'kind': 'plus', 'n': n, 'edges': edges, 'k': k, 'builder': builder}
+                    if n - k >= 2:
+                        yield {'kind': 'plus', 'n': n, 'edges': edges, 'k': k, 'builder': builder,
+                               'rev': True}
+    # insert_workflow: every pair of DAGs (any number of sources and sinks) with a + b <= N tasks
+    for a in range(1, N):
+        for b in range(1, N - a + 1):
+            for ea in _all_dags(a, False):
+                for eb in _all_dags(b, False):
+                    for permb in itertools.permutations(range(b)):
+                        options = [None] + [{'single': i} for i in range(a)]
+                        for r in range(1, min(a, 3) + 1):
+                            options += [{'list': list(c)} for c in itertools.permutations(range(a), r)]
+                        for p in options:
+                            yield {'kind': 'insert', 'a': a, 'ea': ea, 'b': b, 'eb': eb,
+                                   'permb': list(permb), 'preds': p}
+                            if p is None and b >= 2:
+                                yield {'kind': 'insert', 'a': a, 'ea': ea, 'b': b, 'eb': eb,
+                                       'permb': list(permb), 'preds': p, 'names': 'same'}
+    # insert_context / execute_workflow: every assignment of function kinds
+    kinds = list(FN_KINDS)
+    for n in (1, 2):
+        for edges in _all_dags(n, True):
+            for ks in itertools.product(kinds, repeat=n):
+                yield {'kind': 'context', 'n': n, 'edges': edges, 'kinds': list(ks)}
+    few = ['plain', 'ctx_plain', 'ctx_partial'] if quick else ['plain', 'ctx_plain', 'ctx_partial',
+                                                              'ctx_wrapped', 'method']
+    for n in (3,) if quick else (3, 4):
+        for edges in _all_dags(n, True):
+            for ks in itertools.product(few if n == 3 else few[:3], repeat=n):
+                yield {'kind': 'context', 'n': n, 'edges': edges, 'kinds': list(ks)}
+
+
+def _wf_worker(items):
+    best = {}
+    n = 0
+    for case in items:
+        n += 1
+        for fid, clause, detail in _check_wf_case(case):
+            k = (fid, clause)
+            size = (case.get('n', 0) + case.get('a', 0) + case.get('b', 0),
+                    len(case.get('edges', [])) + len(case.get('ea', [])) + len(case.get('eb', [])),
+                    len(repr(case)))
+            if k not in best or (size, detail) < (best[k][0], best[k][1]):
+                best[k] = (size, detail, case)
+    return n, n, best
+
+
+def bounded_workflows(tier):
+    import pharmpy.workflows  # noqa: F401
+
+    jobs = _chunks(_wf_cases(tier), 150)
+    cases, nontrivial, fails = _merge_fails(_run_jobs(_wf_worker, jobs), 'bounded_workflows_replay')
+    quick = tier == 'quick'
+    N = 4 if quick else 5
+    bound = (f'every DAG with <={N} tasks and one sink (edges i<j), tasks entering in every order'
+             f'{"" if quick else " (5 tasks: rotations and reversal)"}, distinct tasks and tasks with the '
+             f'same name and function, predecessor lists in both orders, three ways of building; '
+             f'replace_task of every task; + of every split at every task; insert_workflow of every pair '
+             f'of DAGs with a+b<={N} tasks, every entry order of the inserted one and every predecessor '
+             f'argument (None, one task, lists of <=3 tasks); insert_context and execute_workflow for '
+             f'every assignment of {len(FN_KINDS)} function kinds to <=2 tasks and of '
+             f'{3 if quick else 5} kinds to 3{"" if quick else " (3 kinds to 4)"} tasks')
+    return {
+        'cases': cases,
+        'nontrivial': nontrivial,
+        'bound': bound,
+        'samples': ["dag n=4 edges=[[0,3],[1,2],[2,3]] perm=[2,0,3,1] names=same",
+                    "insert a=2 b=2 preds={'list': [1, 0]}",
+                    "context kinds=['ctx_partial', 'plain', 'ctx_wrapped']"],
+        'fails': fails,
+    }
+
+
+def bounded_workflows_replay(rp):
+    case = rp['case']
+    for fid, clause, detail in _check_wf_case({k: v for k, v in case.items()}):
         if fid == case['fid'] and clause == case['clause']:
             return (False, detail)
     return (True, 'ok')
